@@ -53,8 +53,43 @@ inline std::string val_show(nix::DataType t, const Val &v) {
     using nix::DataType;
     if (t == DataType::String) return "\"" + (v.s.size() > 40 ? v.s.substr(0, 40) + "..." : v.s) + "\"";
     if (t == DataType::Float) return hexd(val_as<float>(v)); if (t == DataType::Double) return hexd(val_as<double>(v));
-    if (t == DataType::Int8 || t == DataType::Int16 || t == DataType::Int32 || t == DataType::Int64) return str((long long)val_num(t, v));
+    if (t == DataType::Int8 || t == DataType::Int16 || t == DataType::Int32 || t == DataType::Int64) { long long i = t == DataType::Int8 ? val_as<int8_t>(v) : t == DataType::Int16 ? val_as<int16_t>(v) : t == DataType::Int32 ? val_as<int32_t>(v) : val_as<int64_t>(v); return str(i); }
     return str((unsigned long long)v.bits);
+}
+
+// exact conversion between numeric element types without long double (valgrind computes long double in 64 bits):
+// false when the source value is not exactly representable in the target type
+inline bool is_int_type(nix::DataType t) { using nix::DataType; return t == DataType::Int8 || t == DataType::Int16 || t == DataType::Int32 || t == DataType::Int64 || t == DataType::UInt8 || t == DataType::UInt16 || t == DataType::UInt32 || t == DataType::UInt64 || t == DataType::Bool; }
+inline bool int_to_val(nix::DataType t, __int128 i, Val &out) {
+    using nix::DataType;
+    auto in = [&](__int128 lo, __int128 hi) { return i >= lo && i <= hi; };
+    switch (t) {
+    case DataType::Int8: if (!in(INT8_MIN, INT8_MAX)) return false; out = val_of<int8_t>((int8_t)i); return true;
+    case DataType::Int16: if (!in(INT16_MIN, INT16_MAX)) return false; out = val_of<int16_t>((int16_t)i); return true;
+    case DataType::Int32: if (!in(INT32_MIN, INT32_MAX)) return false; out = val_of<int32_t>((int32_t)i); return true;
+    case DataType::Int64: if (!in(INT64_MIN, INT64_MAX)) return false; out = val_of<int64_t>((int64_t)i); return true;
+    case DataType::UInt8: if (!in(0, UINT8_MAX)) return false; out = val_of<uint8_t>((uint8_t)i); return true;
+    case DataType::UInt16: if (!in(0, UINT16_MAX)) return false; out = val_of<uint16_t>((uint16_t)i); return true;
+    case DataType::UInt32: if (!in(0, UINT32_MAX)) return false; out = val_of<uint32_t>((uint32_t)i); return true;
+    case DataType::UInt64: if (!in(0, (__int128)UINT64_MAX)) return false; out = val_of<uint64_t>((uint64_t)i); return true;
+    case DataType::Float: { float f = (float)(int64_t)(i > INT64_MAX ? 0 : i); if (i > INT64_MAX) f = (float)(uint64_t)i; if (!(std::fabs(f) < 3e38f) || (__int128)f != i) return false; out = val_of<float>(f); return true; }
+    case DataType::Double: { double d = i > INT64_MAX ? (double)(uint64_t)i : (double)(int64_t)i; if ((__int128)d != i) return false; out = val_of<double>(d); return true; }
+    default: return false;
+    }
+}
+inline bool exact_convert(nix::DataType st, const Val &sv, nix::DataType tt, Val &out) {
+    using nix::DataType;
+    if (is_int_type(st)) {
+        __int128 i = st == DataType::Int8 ? val_as<int8_t>(sv) : st == DataType::Int16 ? val_as<int16_t>(sv) : st == DataType::Int32 ? val_as<int32_t>(sv) : st == DataType::Int64 ? (__int128)val_as<int64_t>(sv)
+                   : st == DataType::UInt8 ? val_as<uint8_t>(sv) : st == DataType::UInt16 ? val_as<uint16_t>(sv) : st == DataType::UInt32 ? (__int128)val_as<uint32_t>(sv) : st == DataType::Bool ? (val_as<uint8_t>(sv) ? 1 : 0) : (__int128)val_as<uint64_t>(sv);
+        return int_to_val(tt, i, out);
+    }
+    double x = st == DataType::Float ? (double)val_as<float>(sv) : val_as<double>(sv);
+    if (!std::isfinite(x)) return false;
+    if (tt == DataType::Double) { out = val_of<double>(x); return true; }
+    if (tt == DataType::Float) { float f = (float)x; if (!std::isfinite(f) || (double)f != x) return false; out = val_of<float>(f); return true; }
+    if (x != std::floor(x) || !(x > -9.3e18 && x < 1.85e19)) return false;       // both bounds lie outside every integer type and inside __int128
+    return int_to_val(tt, (__int128)x, out);
 }
 
 // value generator: `ord` is the global write ordinal (unique per written cell)
